@@ -5,7 +5,15 @@ namespace SaVerif.Txn
 /-- every DBAPI connection idle in the pool has no transaction in progress (so it will see
     exactly the committed rows when handed out), no savepoints, default isolation level -/
 def PoolClean (db : DB) : Prop :=
-  ∀ r, some r ∈ db.idle → r.follows = true ∧ r.saves = [] ∧ r.autocommit = false
+  ∀ r, some r ∈ db.idle → r.follows = true ∧ r.saves = [] ∧ r.autocommit = false ∧
+    r.readUnc = false ∧ r.finalize = []
+
+/-- a non-default isolation level on the held DBAPI connection is always accompanied by a
+    queued reset callback that covers the isolation level -/
+def IsoOk (r : Raw) : Prop :=
+  (r.autocommit = true ∨ r.readUnc = true) → r.finalize.any id = true
+
+def HeldIso (db : DB) : Prop := IsoOk db.raw
 
 /-- the connection's `_transaction` is a RootTransaction object -/
 def RootPtr (c : Conn) : Prop := ∀ t, c.transaction = some t → (c.txn t).isRoot = true
@@ -14,53 +22,71 @@ def RootPtr (c : Conn) : Prop := ∀ t, c.transaction = some t → (c.txn t).isR
 structure Shrinks (db db' : DB) : Prop where
   reset : db'.reset = db.reset
   idle : ∀ r, some r ∈ db'.idle → some r ∈ db.idle
-
-theorem Shrinks.refl (db : DB) : Shrinks db db := ⟨rfl, fun _ h => h⟩
-theorem Shrinks.trans {a b c : DB} (h1 : Shrinks a b) (h2 : Shrinks b c) : Shrinks a c :=
-  ⟨h2.reset.trans h1.reset, fun r h => h1.idle r (h2.idle r h)⟩
+  held : PoolClean db → HeldIso db → HeldIso db'
 
 theorem Shrinks.clean {db db' : DB} (h : Shrinks db db') (hc : PoolClean db) : PoolClean db' :=
   fun r hr => hc r (h.idle r hr)
 
-/-- same idle queue and reset style -/
-theorem shrinks_of_eq {db db' : DB} (h1 : db'.reset = db.reset) (h2 : db'.idle = db.idle) :
-    Shrinks db db' := ⟨h1, fun r h => by rw [h2] at h; exact h⟩
+theorem Shrinks.refl (db : DB) : Shrinks db db := ⟨rfl, fun _ h => h, fun _ h => h⟩
+theorem Shrinks.trans {a b c : DB} (h1 : Shrinks a b) (h2 : Shrinks b c) : Shrinks a c :=
+  ⟨h2.reset.trans h1.reset, fun r h => h1.idle r (h2.idle r h),
+   fun hc hi => h2.held (h1.clean hc) (h1.held hc hi)⟩
+
+/-- same idle queue, reset style and isolation state of the held connection -/
+theorem shrinks_of_eq {db db' : DB} (h1 : db'.reset = db.reset) (h2 : db'.idle = db.idle)
+    (h3 : db'.raw.autocommit = db.raw.autocommit) (h4 : db'.raw.readUnc = db.raw.readUnc)
+    (h5 : db'.raw.finalize = db.raw.finalize) :
+    Shrinks db db' :=
+  ⟨h1, fun r h => by rw [h2] at h; exact h, fun _ hi => by unfold HeldIso IsoOk; rw [h3, h4, h5]; exact hi⟩
+
+theorem heldIso_clean {db : DB} (h1 : db.raw.autocommit = false) (h2 : db.raw.readUnc = false) :
+    HeldIso db := by
+  intro h; rcases h with h | h
+  · rw [h1] at h; cases h
+  · rw [h2] at h; cases h
 
 theorem takeFault_shrinks (db : DB) (p : FPoint) : Shrinks db (db.takeFault p).2 := by
   unfold DB.takeFault
-  split <;> exact shrinks_of_eq rfl rfl
+  split <;> exact shrinks_of_eq rfl rfl rfl rfl rfl
 
-theorem commit_shrinks (db : DB) : Shrinks db db.commit := shrinks_of_eq rfl rfl
-theorem rollback_shrinks (db : DB) : Shrinks db db.rollback := shrinks_of_eq rfl rfl
+theorem commit_shrinks (db : DB) : Shrinks db db.commit := shrinks_of_eq rfl rfl rfl rfl rfl
+theorem rollback_shrinks (db : DB) : Shrinks db db.rollback := shrinks_of_eq rfl rfl rfl rfl rfl
 theorem write_shrinks (db : DB) (d : Data) : Shrinks db (db.write d) := by
-  unfold DB.write; split <;> exact shrinks_of_eq rfl rfl
+  unfold DB.write; split <;> exact shrinks_of_eq rfl rfl rfl rfl rfl
 
 theorem kill_shrinks (db : DB) : Shrinks db db.kill :=
   ⟨rfl, fun r h => by
     have h' : some r ∈ db.idle ++ [none] := h
     rcases List.mem_append.1 h' with h' | h'
     · exact h'
-    · simp at h'⟩
+    · simp at h', fun _ _ => heldIso_clean rfl rfl⟩
 
-theorem newRaw_shrinks (db : DB) : Shrinks db db.newRaw := shrinks_of_eq rfl rfl
+theorem newRaw_shrinks (db : DB) : Shrinks db db.newRaw :=
+  ⟨rfl, fun _ h => h, fun _ _ => heldIso_clean rfl rfl⟩
 
 theorem poolInvalidate_shrinks (db : DB) : Shrinks db db.poolInvalidate := by
   unfold DB.poolInvalidate
-  split <;> exact shrinks_of_eq rfl rfl
+  split <;> exact shrinks_of_eq rfl rfl rfl rfl rfl
 
 theorem checkout_shrinks (db : DB) : Shrinks db db.checkout := by
   unfold DB.checkout
   split
   · exact newRaw_shrinks db
   · rename_i rest he
-    exact ⟨rfl, fun r h => by rw [he]; exact List.mem_cons_of_mem _ h⟩
+    exact ⟨rfl, fun r h => by rw [he]; exact List.mem_cons_of_mem _ h,
+      fun _ _ => heldIso_clean rfl rfl⟩
   · rename_i r rest he
     have hsub : ∀ x, some x ∈ rest → some x ∈ db.idle := fun x h => by
       rw [he]; exact List.mem_cons_of_mem _ h
+    have hclean : PoolClean db → r.autocommit = false ∧ r.readUnc = false := fun hc => by
+      have := hc r (by rw [he]; exact List.mem_cons_self)
+      exact ⟨this.2.2.1, this.2.2.2.1⟩
     simp only []
     split
-    · exact ⟨rfl, hsub⟩
-    · split <;> exact ⟨rfl, hsub⟩
+    · exact ⟨rfl, hsub, fun _ _ => heldIso_clean rfl rfl⟩
+    · split
+      · exact ⟨rfl, hsub, fun hc _ => heldIso_clean (hclean hc).1 (hclean hc).2⟩
+      · exact ⟨rfl, hsub, fun hc _ => heldIso_clean (hclean hc).1 (hclean hc).2⟩
 
 theorem apply_shrinks (db : DB) (q : Sql) (db' : DB) (r : Res) (h : db.apply q = (some db', r)) :
     Shrinks db db' := by
@@ -71,12 +97,22 @@ theorem apply_shrinks (db : DB) (q : Sql) (db' : DB) (r : Res) (h : db.apply q =
     · simp at h
   · simp only [Prod.mk.injEq, Option.some.injEq] at h; rw [← h.1]; exact write_shrinks _ _
   · simp only [Prod.mk.injEq, Option.some.injEq] at h; rw [← h.1]; exact Shrinks.refl _
-  · simp only [Prod.mk.injEq, Option.some.injEq] at h; rw [← h.1]; exact shrinks_of_eq rfl rfl
+  · simp only [Prod.mk.injEq, Option.some.injEq] at h; rw [← h.1]; exact shrinks_of_eq rfl rfl rfl rfl rfl
   · split at h
-    · simp only [Prod.mk.injEq, Option.some.injEq] at h; rw [← h.1]; exact shrinks_of_eq rfl rfl
+    · rename_i r' hr
+      simp only [Prod.mk.injEq, Option.some.injEq] at h; rw [← h.1]
+      unfold Raw.rollbackTo at hr
+      split at hr
+      · simp only [Option.some.injEq] at hr; rw [← hr]; exact shrinks_of_eq rfl rfl rfl rfl rfl
+      · simp at hr
     · simp at h
   · split at h
-    · simp only [Prod.mk.injEq, Option.some.injEq] at h; rw [← h.1]; exact shrinks_of_eq rfl rfl
+    · rename_i r' hr
+      simp only [Prod.mk.injEq, Option.some.injEq] at h; rw [← h.1]
+      unfold Raw.release at hr
+      split at hr
+      · simp only [Option.some.injEq] at hr; rw [← hr]; exact shrinks_of_eq rfl rfl rfl rfl rfl
+      · simp at hr
     · simp at h
 
 /-! ### what returning a connection does to the pool -/
@@ -85,7 +121,8 @@ theorem apply_shrinks (db : DB) (q : Sql) (db' : DB) (r : Res) (h : db.apply q =
 def HeldClean (db : DB) : Prop := db.raw.working = db.committed ∧ db.raw.saves = []
 
 theorem poolClean_snoc {db : DB} {r : Raw} {idle : List (Option Raw)} (hc : PoolClean db)
-    (hi : idle = db.idle ++ [some r]) (hr : r.follows = true ∧ r.saves = [] ∧ r.autocommit = false)
+    (hi : idle = db.idle ++ [some r])
+    (hr : r.follows = true ∧ r.saves = [] ∧ r.autocommit = false ∧ r.readUnc = false ∧ r.finalize = [])
     (db' : DB) (hd : db'.idle = idle) : PoolClean db' := by
   intro x hx
   rw [hd, hi] at hx
@@ -94,10 +131,26 @@ theorem poolClean_snoc {db : DB} {r : Raw} {idle : List (Option Raw)} (hc : Pool
   · simp only [List.mem_singleton, Option.some.injEq] at hx
     subst hx; exact hr
 
+/-- the record put back by `checkin` once the transaction state is clean -/
+theorem returned_clean (db : DB) (hw : db.raw.working = db.committed) (hs : db.raw.saves = [])
+    (hi : HeldIso db) :
+    let iso := db.raw.finalize.any id
+    let r : Raw := { db.raw with autocommit := db.raw.autocommit && !iso, readUnc := db.raw.readUnc && !iso,
+                                 finalize := [],
+                                 follows := decide (db.raw.working = db.committed) && db.raw.saves.isEmpty }
+    r.follows = true ∧ r.saves = [] ∧ r.autocommit = false ∧ r.readUnc = false ∧ r.finalize = [] := by
+  refine ⟨by simp [hw, hs], hs, ?_, ?_, rfl⟩
+  · cases ha : db.raw.autocommit with
+    | false => rfl
+    | true => simp [hi (Or.inl ha)]
+  · cases hu : db.raw.readUnc with
+    | false => rfl
+    | true => simp [hi (Or.inr hu)]
+
 /-- reset-on-return (rollback or commit) always leaves the pool clean … -/
 theorem checkin_clean_reset (db : DB) (b : Bool) (hrs : db.reset ≠ .none)
-    (hb : b = true → HeldClean db) (hc : PoolClean db) :
-    PoolClean (db.checkin b) ∧ (db.checkin b).reset = db.reset := by
+    (hb : b = true → HeldClean db) (hc : PoolClean db) (hi : HeldIso db) :
+    PoolClean (db.checkin b) ∧ (db.checkin b).reset = db.reset ∧ HeldIso (db.checkin b) := by
   unfold DB.checkin
   cases hr : db.reset with
   | none => exact absurd hr hrs
@@ -107,9 +160,8 @@ theorem checkin_clean_reset (db : DB) (b : Bool) (hrs : db.reset ≠ .none)
     | true =>
       obtain ⟨h1, h2⟩ := hb rfl
       simp only [if_true, Bool.false_eq_true, if_false]
-      refine ⟨?_, hr⟩
-      refine poolClean_snoc hc rfl ?_ _ rfl
-      simp [h1, h2]
+      have hrc := returned_clean db h1 h2 hi
+      refine ⟨poolClean_snoc hc rfl hrc _ rfl, hr, heldIso_clean hrc.2.2.1 hrc.2.2.2.1⟩
     | false =>
       simp only [Bool.false_eq_true, if_false]
       cases hf : db.takeFault .rollback with
@@ -118,12 +170,14 @@ theorem checkin_clean_reset (db : DB) (b : Bool) (hrs : db.reset ≠ .none)
         cases o with
         | some k =>
           simp only [if_true]
-          exact ⟨(hs.trans (kill_shrinks db1)).clean hc, by simp [DB.kill, hs.reset, hr]⟩
+          exact ⟨(hs.trans (kill_shrinks db1)).clean hc, by simp [DB.kill, hs.reset, hr],
+            heldIso_clean rfl rfl⟩
         | none =>
           simp only [Bool.false_eq_true, if_false]
-          refine ⟨?_, by simp [DB.rollback, hs.reset, hr]⟩
-          refine poolClean_snoc (hs.clean hc) rfl ?_ _ rfl
-          simp [DB.rollback]
+          have hi1 : HeldIso db1.rollback := (hs.trans (rollback_shrinks db1)).held hc hi
+          have hrc := returned_clean db1.rollback rfl rfl hi1
+          refine ⟨poolClean_snoc (hs.clean hc) rfl hrc _ rfl, by simp [DB.rollback, hs.reset, hr],
+            heldIso_clean hrc.2.2.1 hrc.2.2.2.1⟩
   | commit =>
     simp only []
     cases hf : db.takeFault .commit with
@@ -132,35 +186,84 @@ theorem checkin_clean_reset (db : DB) (b : Bool) (hrs : db.reset ≠ .none)
       cases o with
       | some k =>
         simp only [if_true]
-        exact ⟨(hs.trans (kill_shrinks db1)).clean hc, by simp [DB.kill, hs.reset, hr]⟩
+        exact ⟨(hs.trans (kill_shrinks db1)).clean hc, by simp [DB.kill, hs.reset, hr],
+          heldIso_clean rfl rfl⟩
       | none =>
         simp only [Bool.false_eq_true, if_false]
-        refine ⟨?_, by simp [DB.commit, hs.reset, hr]⟩
-        refine poolClean_snoc (hs.clean hc) rfl ?_ _ rfl
-        simp [DB.commit]
+        have hi1 : HeldIso db1.commit := (hs.trans (commit_shrinks db1)).held hc hi
+        have hrc := returned_clean db1.commit rfl rfl hi1
+        refine ⟨poolClean_snoc (hs.clean hc) rfl hrc _ rfl, by simp [DB.commit, hs.reset, hr],
+          heldIso_clean hrc.2.2.1 hrc.2.2.2.1⟩
 
 /-- a checkout from a clean pool sees exactly the committed rows, has no savepoints and
     the default isolation level -/
 theorem checkout_held_clean (db : DB) (hc : PoolClean db) :
     db.checkout.raw.working = db.checkout.committed ∧ db.checkout.raw.saves = [] ∧
-    db.checkout.raw.autocommit = false := by
+    db.checkout.raw.autocommit = false ∧ db.checkout.raw.readUnc = false ∧
+    db.checkout.raw.finalize = [] := by
   unfold DB.checkout
   split
   · simp [DB.newRaw, DB.tick]
   · simp [DB.newRaw, DB.tick]
   · rename_i r rest he
-    obtain ⟨h1, h2, h3⟩ := hc r (by rw [he]; exact List.mem_cons_self)
+    obtain ⟨h1, h2, h3, h4, h5⟩ := hc r (by rw [he]; exact List.mem_cons_self)
     simp only []
     split
     · simp [DB.newRaw, DB.tick]
-    · simp [h1, h2, h3]
+    · simp [h1, h2, h3, h4, h5]
 
+/-- `_set_connection_characteristics` keeps pool and reset style, and queues the callback
+    that will undo what it sets -/
+theorem applyChar_shrinks (db : DB) (b : Bool) : Shrinks db (db.applyChar b) := by
+  unfold DB.applyChar
+  refine ⟨by cases b <;> rfl, fun r h => by cases b <;> exact h, ?_⟩
+  intro _ hi
+  cases b with
+  | true => intro _; simp
+  | false =>
+    intro h
+    have := hi h
+    simp only [Bool.false_eq_true, if_false] at this ⊢
+    simp [this]
+
+theorem connectRaw_shrinks (db : DB) : Shrinks db db.connectRaw := by
+  unfold DB.connectRaw
+  have key : ∀ (l : List Bool) (d : DB), Shrinks d (l.foldl DB.applyChar d) := by
+    intro l
+    induction l with
+    | nil => intro d; exact Shrinks.refl d
+    | cons b bs ih => intro d; exact (applyChar_shrinks d b).trans (ih _)
+  exact (checkout_shrinks db).trans (key _ _)
 
 /-! ### preservation through the Connection functions -/
 
+/-- `_previous_nested` always points to an older handle, and the current savepoint exists -/
+structure PrevWF (c : Conn) : Prop where
+  prev : ∀ h p, (c.txn h).prev = some p → p < h
+  nested : ∀ n, c.nested = some n → n < c.txns.length
+
+/-- structural well-formedness of the handle table -/
+def WFc (c : Conn) : Prop := RootPtr c ∧ PrevWF c
+
+theorem wfc_congr {c c' : Conn} (h1 : c'.txns = c.txns) (h2 : c'.transaction = c.transaction)
+    (h3 : c'.nested = c.nested) (hw : WFc c) : WFc c' := by
+  have htx : ∀ x, c'.txn x = c.txn x := fun x => by simp [Conn.txn, h1]
+  refine ⟨fun t ht => ?_, ⟨fun h p hx => ?_, fun n hn => ?_⟩⟩
+  · rw [htx]; exact hw.1 t (by rw [← h2]; exact ht)
+  · rw [htx] at hx; exact hw.2.prev h p hx
+  · rw [h1]; exact hw.2.nested n (by rw [← h3]; exact hn)
+
 structure Pres (c c' : Conn) : Prop where
-  root : RootPtr c → RootPtr c'
+  root : WFc c → WFc c'
   db : Shrinks c.db c'.db
+
+theorem wfc_empty {c : Conn} (h1 : c.txns = []) (h2 : c.transaction = none) (h3 : c.nested = none) :
+    WFc c := by
+  refine ⟨fun t ht => ?_, ⟨fun h p hx => ?_, fun n hn => ?_⟩⟩
+  · rw [h2] at ht; cases ht
+  · have : c.txn h = default := by simp [Conn.txn, h1]
+    rw [this] at hx; cases hx
+  · rw [h3] at hn; cases hn
 
 theorem Pres.refl (c : Conn) : Pres c c := ⟨id, Shrinks.refl _⟩
 theorem Pres.trans {a b c : Conn} (h1 : Pres a b) (h2 : Pres b c) : Pres a c :=
@@ -176,9 +279,9 @@ theorem txn_isRoot_lt {c : Conn} {t : Nat} (h : (c.txn t).isRoot = true) : t < c
 
 /-- only the database changes -/
 theorem pres_db (c : Conn) (db' : DB) (h : Shrinks c.db db') : Pres c { c with db := db' } :=
-  ⟨fun hr => hr, h⟩
+  ⟨wfc_congr rfl rfl rfl, h⟩
 
-theorem pres_warn (c : Conn) : Pres c c.warn := ⟨fun hr => hr, Shrinks.refl _⟩
+theorem pres_warn (c : Conn) : Pres c c.warn := ⟨wfc_congr rfl rfl rfl, Shrinks.refl _⟩
 
 /-- a per-handle update that keeps `isRoot` -/
 theorem setTxn_isRoot (c : Conn) (h : Nat) (f : Txn → Txn) (hf : ∀ t, (f t).isRoot = t.isRoot)
@@ -191,35 +294,76 @@ theorem setTxn_isRoot (c : Conn) (h : Nat) (f : Txn → Txn) (hf : ∀ t, (f t).
       simp [Conn.setTxn, Conn.txn, List.getD_eq_getElem?_getD, this]
   · rw [setTxn_txn_ne _ _ _ _ e]
 
-theorem pres_setTxn (c : Conn) (h : Nat) (f : Txn → Txn) (hf : ∀ t, (f t).isRoot = t.isRoot) :
+theorem setTxn_prev (c : Conn) (h : Nat) (f : Txn → Txn) (hf : ∀ t, (f t).prev = t.prev)
+    (x : Nat) : ((c.setTxn h f).txn x).prev = (c.txn x).prev := by
+  by_cases e : h = x
+  · subst e
+    by_cases hh : h < c.txns.length
+    · rw [setTxn_txn_eq _ _ _ hh, hf]
+    · have : c.txns[h]? = none := by simp; omega
+      simp [Conn.setTxn, Conn.txn, List.getD_eq_getElem?_getD, this]
+  · rw [setTxn_txn_ne _ _ _ _ e]
+
+theorem pres_setTxn (c : Conn) (h : Nat) (f : Txn → Txn) (hf : ∀ t, (f t).isRoot = t.isRoot)
+    (hp : ∀ t, (f t).prev = t.prev) :
     Pres c (c.setTxn h f) :=
-  ⟨fun hr t ht => by rw [setTxn_isRoot _ _ _ hf]; exact hr t ht, Shrinks.refl _⟩
+  ⟨fun hw => ⟨fun t ht => by rw [setTxn_isRoot _ _ _ hf]; exact hw.1 t ht,
+     ⟨fun x p hx => by rw [setTxn_prev _ _ _ hp] at hx; exact hw.2.prev x p hx,
+      fun n hn => by rw [setTxn_length]; exact hw.2.nested n hn⟩⟩, Shrinks.refl _⟩
 
 theorem pres_deactivate (c : Conn) (h : Nat) : Pres c (c.deactivate h) :=
-  pres_setTxn c h _ (fun _ => rfl)
+  pres_setTxn c h _ (fun _ => rfl) (fun _ => rfl)
 
 theorem pres_detach (c : Conn) : Pres c { c with transaction := none } :=
-  ⟨fun _ t ht => (by cases ht), Shrinks.refl _⟩
+  ⟨fun hw => ⟨fun t ht => (by cases ht), ⟨hw.2.prev, hw.2.nested⟩⟩, Shrinks.refl _⟩
 
-theorem pres_setNested (c : Conn) (o : Option Nat) : Pres c { c with nested := o } :=
-  ⟨fun hr => hr, Shrinks.refl _⟩
+/-- `_nested_transaction = self._previous_nested` for the current savepoint `h` -/
+theorem pres_popNested (c : Conn) (h : Nat) (hn : c.nested = some h) :
+    Pres c { c with nested := (c.txn h).prev } :=
+  ⟨fun hw => ⟨hw.1, ⟨hw.2.prev, fun n hx => by
+      have h1 := hw.2.prev h n hx
+      have h2 := hw.2.nested h hn
+      show n < c.txns.length
+      omega⟩⟩, Shrinks.refl _⟩
 
 theorem pres_setCtx (c : Conn) (o : Option Nat) : Pres c { c with ctxMgr := o } :=
-  ⟨fun hr => hr, Shrinks.refl _⟩
+  ⟨wfc_congr rfl rfl rfl, Shrinks.refl _⟩
+
+theorem txn_ge_default (c : Conn) (x : Nat) (hx : c.txns.length ≤ x) : c.txn x = default := by
+  have : c.txns[x]? = none := by simp; omega
+  simp [Conn.txn, List.getD_eq_getElem?_getD, this]
+
+/-- appending a handle whose `_previous_nested` is an existing handle keeps `PrevWF.prev` -/
+theorem append_prev {c : Conn} (t : Txn) (hw : PrevWF c) (ht : ∀ p, t.prev = some p → p < c.txns.length) :
+    ∀ h p, (({ c with txns := c.txns ++ [t] } : Conn).txn h).prev = some p → p < h := by
+  intro h p hx
+  rcases Nat.lt_trichotomy h c.txns.length with hl | hl | hl
+  · rw [txn_append_lt c t h hl] at hx; exact hw.prev h p hx
+  · subst hl; rw [txn_append_new c t] at hx; exact ht p hx
+  · have : ({ c with txns := c.txns ++ [t] } : Conn).txn h = default :=
+      txn_ge_default _ h (by simp; omega)
+    rw [this] at hx; cases hx
 
 theorem pres_pushRoot (c : Conn) : Pres c c.pushRoot where
-  root := fun _ t ht => by
-    have : t = c.txns.length := by simp [Conn.pushRoot] at ht; exact ht.symm
-    subst this
-    rw [show c.pushRoot.txn c.txns.length = _ from txn_append_new c _]
+  root := fun hw => ⟨fun t ht => by
+      have : t = c.txns.length := by simp [Conn.pushRoot] at ht; exact ht.symm
+      subst this
+      rw [show c.pushRoot.txn c.txns.length = _ from txn_append_new c _],
+    ⟨append_prev _ hw.2 (fun p hp => by cases hp), fun n hn => by
+      have := hw.2.nested n hn
+      simp [Conn.pushRoot]; omega⟩⟩
   db := Shrinks.refl _
 
 theorem pres_pushNested (c : Conn) : Pres c c.pushNested where
-  root := fun hr t ht => by
-    have ht' : c.transaction = some t := ht
-    have := hr t ht'
-    rw [show c.pushNested.txn t = c.txn t from txn_append_lt c _ t (txn_isRoot_lt this)]
-    exact this
+  root := fun hw => ⟨fun t ht => by
+      have ht' : c.transaction = some t := ht
+      have := hw.1 t ht'
+      rw [show c.pushNested.txn t = c.txn t from txn_append_lt c _ t (txn_isRoot_lt this)]
+      exact this,
+    ⟨append_prev _ hw.2 (fun p hp => hw.2.nested p hp), fun n hn => by
+      have : n = c.txns.length := by simp [Conn.pushNested] at hn; exact hn.symm
+      subst this
+      simp [Conn.pushNested]⟩⟩
   db := Shrinks.refl _
 
 theorem andThen_pres {c : Conn} {x : Conn × Res} {f : Conn → Conn × Res}
@@ -236,7 +380,7 @@ theorem revalidate_pres (c : Conn) : Pres c c.revalidate.1 := by
   split
   · split
     · exact Pres.refl c
-    · exact ⟨fun hr => hr, checkout_shrinks c.db⟩
+    · exact ⟨wfc_congr rfl rfl rfl, checkout_shrinks c.db⟩
   · exact Pres.refl c
 
 theorem connProp_pres (c : Conn) : Pres c c.connProp.1 := by
@@ -249,7 +393,7 @@ theorem onDisconnect_pres (c : Conn) : Pres c c.onDisconnect := by
   unfold Conn.onDisconnect
   split
   · exact Pres.refl c
-  · exact ⟨fun hr => hr, (poolInvalidate_shrinks c.db).trans (kill_shrinks _)⟩
+  · exact ⟨wfc_congr rfl rfl rfl, (poolInvalidate_shrinks c.db).trans (kill_shrinks _)⟩
 
 theorem invalidate_pres (c : Conn) : Pres c c.invalidate.1 := by
   unfold Conn.invalidate
@@ -257,7 +401,7 @@ theorem invalidate_pres (c : Conn) : Pres c c.invalidate.1 := by
   · exact Pres.refl c
   · split
     · exact Pres.refl c
-    · exact ⟨fun hr => hr, kill_shrinks _⟩
+    · exact ⟨wfc_congr rfl rfl rfl, kill_shrinks _⟩
 
 theorem beginRoot_pres (c : Conn) : Pres c c.beginRoot.1 := by
   unfold Conn.beginRoot
@@ -283,7 +427,7 @@ theorem discError_pres (c : Conn) : Pres c c.discError.1 := by
   · simp only []
     split
     · exact Pres.refl c
-    · exact ⟨fun hr => hr, kill_shrinks _⟩
+    · exact ⟨wfc_congr rfl rfl rfl, kill_shrinks _⟩
   · exact onDisconnect_pres c
 
 theorem plainError_pres (c : Conn) : Pres c c.plainError.1 := by
@@ -300,13 +444,23 @@ theorem plainError_pres (c : Conn) : Pres c c.plainError.1 := by
         | none => exact pres_db c _ (hs.trans (rollback_shrinks db1))
     · exact Pres.refl c
 
+theorem kbiError_pres (c : Conn) : Pres c c.kbiError.1 := by
+  unfold Conn.kbiError
+  simp only []
+  split
+  · exact Pres.refl c
+  · exact ⟨wfc_congr rfl rfl rfl, kill_shrinks _⟩
+
 theorem dbapiError_pres (c : Conn) (k : FKind) : Pres c (c.dbapiError k).1 := by
   unfold Conn.dbapiError
   split
-  · exact discError_pres c
-  · cases k with
-    | disc => exact discError_pres c
-    | err => exact plainError_pres c
+  · exact kbiError_pres c
+  · split
+    · exact discError_pres c
+    · cases k with
+      | disc => exact discError_pres c
+      | err => exact plainError_pres c
+      | kbi => exact plainError_pres c
 
 theorem dbapiCall_pres (c : Conn) (p : FPoint) (f : DB → DB) (hf : ∀ db, Shrinks db (f db)) :
     Pres c (c.dbapiCall p f).1 := by
@@ -352,7 +506,8 @@ theorem execute_pres (c : Conn) (q : Sql) : Pres c (c.execute q).1 := by
 theorem nestedDeactivate_pres (c : Conn) (h : Nat) (w : Bool) : Pres c (c.nestedDeactivate h w) := by
   unfold Conn.nestedDeactivate
   split
-  · exact pres_setNested c _
+  · rename_i hn
+    exact pres_popNested c h (by simpa using hn)
   · split
     · exact pres_warn c
     · exact Pres.refl c
@@ -447,7 +602,7 @@ theorem beginNested_pres (c : Conn) : Pres c c.beginNested.1 := by
   split
   · exact Pres.refl c1
   · simp only []
-    have h0 : Pres c1 { c1 with spSeq := c1.spSeq + 1 } := ⟨fun hr => hr, Shrinks.refl _⟩
+    have h0 : Pres c1 { c1 with spSeq := c1.spSeq + 1 } := ⟨wfc_congr rfl rfl rfl, Shrinks.refl _⟩
     exact h0.trans (andThen_pres (execute_pres _ _) (fun c2 => pres_pushNested c2))
 
 theorem tCommit_pres (c : Conn) (h : Nat) : Pres c (c.tCommit h).1 := by
@@ -482,7 +637,7 @@ theorem rollback_pres (c : Conn) : Pres c c.rollback.1 := by
 
 theorem enter_pres (c : Conn) (h : Nat) : Pres c (c.enter h).1 := by
   unfold Conn.enter
-  exact (pres_setTxn c h (fun t => { t with outerCtx := c.ctxMgr, subject := true }) (fun _ => rfl)).trans
+  exact (pres_setTxn c h (fun t => { t with outerCtx := c.ctxMgr, subject := true }) (fun _ => rfl) (fun _ => rfl)).trans
     (pres_setCtx _ (some h))
 
 theorem exitFinally_pres (c : Conn) (h : Nat) (b : Bool) : Pres c (c.exitFinally h b) := by
@@ -491,7 +646,7 @@ theorem exitFinally_pres (c : Conn) (h : Nat) (b : Bool) : Pres c (c.exitFinally
     split
     · exact pres_setCtx c _
     · exact Pres.refl c
-  exact h1.trans (pres_setTxn _ h _ (fun _ => rfl))
+  exact h1.trans (pres_setTxn _ h _ (fun _ => rfl) (fun _ => rfl))
 
 theorem commitOrRollback_pres (c : Conn) (h : Nat) : Pres c (c.commitOrRollback h).1 := by
   unfold Conn.commitOrRollback
@@ -519,16 +674,26 @@ theorem setAutocommit_pres (c : Conn) : Pres c c.setAutocommit.1 := by
   unfold Conn.setAutocommit
   split
   · exact Pres.refl c
-  · refine andThen_pres (connProp_pres c) (fun c1 => ?_)
-    exact pres_db c1 _ ((commit_shrinks c1.db).trans (shrinks_of_eq rfl rfl))
+  · exact andThen_pres (connProp_pres c) (fun c1 => pres_db c1 _ (applyChar_shrinks c1.db true))
 
+theorem setLogToken_pres (c : Conn) : Pres c c.setLogToken.1 := by
+  unfold Conn.setLogToken
+  exact andThen_pres (connProp_pres c) (fun c1 => pres_db c1 _ (applyChar_shrinks c1.db false))
+
+theorem setReadUnc_pres (c : Conn) : Pres c c.setReadUnc.1 := by
+  unfold Conn.setReadUnc
+  split
+  · exact Pres.refl c
+  · refine andThen_pres (connProp_pres c) (fun c1 => pres_db c1 _ ⟨rfl, fun _ h => h, ?_⟩)
+    intro _ _ _
+    simp
 
 /-! ### close(), garbage collection, new checkouts -/
 
-def Inv (c : Conn) : Prop := RootPtr c ∧ PoolClean c.db ∧ c.db.reset ≠ .none
+def Inv (c : Conn) : Prop := WFc c ∧ PoolClean c.db ∧ c.db.reset ≠ .none ∧ HeldIso c.db
 
 theorem Pres.inv {c c' : Conn} (h : Pres c c') (hi : Inv c) : Inv c' :=
-  ⟨h.root hi.1, h.db.clean hi.2.1, by rw [h.db.reset]; exact hi.2.2⟩
+  ⟨h.root hi.1, h.db.clean hi.2.1, by rw [h.db.reset]; exact hi.2.2.1, h.db.held hi.2.1 hi.2.2.2⟩
 
 /-- functions that touch neither the database nor the DBAPI connection -/
 structure SameDb (c c' : Conn) : Prop where
@@ -602,10 +767,13 @@ theorem plainError_ne_ok (c : Conn) : c.plainError.2 ≠ .ok := by
 theorem dbapiError_ne_ok (c : Conn) (k : FKind) : (c.dbapiError k).2 ≠ .ok := by
   unfold Conn.dbapiError
   split
-  · exact discError_ne_ok c
-  · cases k with
-    | disc => exact discError_ne_ok c
-    | err => exact plainError_ne_ok c
+  · simp [Conn.kbiError]
+  · split
+    · exact discError_ne_ok c
+    · cases k with
+      | disc => exact discError_ne_ok c
+      | err => exact plainError_ne_ok c
+      | kbi => exact plainError_ne_ok c
 
 /-- closing an ACTIVE root transaction without error while the DBAPI connection is still
     held means the ROLLBACK really happened -/
@@ -643,21 +811,32 @@ theorem rootClose_heldClean (c : Conn) (t : Nat) (b : Bool) (hact : c.act t = tr
 
 theorem release_inv {c : Conn} (b : Bool) (hi : Inv c) (hb : b = true → c.hasDbapi = true → HeldClean c.db) :
     Inv (c.release b) := by
-  obtain ⟨h1, h2, h3⟩ := hi
+  obtain ⟨h1, h2, h3, h4⟩ := hi
   unfold Conn.release
   cases hh : c.hasDbapi with
-  | false => simp only [Bool.false_eq_true, if_false]; exact ⟨h1, h2, h3⟩
+  | false => simp only [Bool.false_eq_true, if_false]; exact ⟨wfc_congr (by rfl) (by rfl) (by rfl) h1, h2, h3, h4⟩
   | true =>
     simp only [if_true]
-    obtain ⟨k1, k2⟩ := checkin_clean_reset c.db b h3 (fun e => hb e hh) h2
-    exact ⟨h1, k1, by rw [k2]; exact h3⟩
+    obtain ⟨k1, k2, k3⟩ := checkin_clean_reset c.db b h3 (fun e => hb e hh) h2 h4
+    exact ⟨wfc_congr (by rfl) (by rfl) (by rfl) h1, k1, by rw [k2]; exact h3, k3⟩
+
+theorem releaseOrInterrupt_inv {c : Conn} (b : Bool) (hi : Inv c)
+    (hb : b = true → c.hasDbapi = true → HeldClean c.db) : Inv (c.releaseOrInterrupt b).1 := by
+  unfold Conn.releaseOrInterrupt
+  split
+  · rename_i hcond
+    simp only [Bool.and_eq_true] at hcond
+    obtain ⟨h1, h2, h3, h4⟩ := hi
+    obtain ⟨k1, k2, k3⟩ := checkin_clean_reset c.db b h3 (fun e => hb e hcond.1) h2 h4
+    exact ⟨wfc_congr (by rfl) (by rfl) (by rfl) h1, k1, by rw [k2]; exact h3, k3⟩
+  · exact release_inv b hi hb
 
 theorem close_inv {c : Conn} (hi : Inv c) : Inv c.close.1 := by
   unfold Conn.close
   cases ht : c.transaction with
   | none =>
     simp only []
-    exact release_inv false hi (fun e => by cases e)
+    exact releaseOrInterrupt_inv false hi (fun e => by cases e)
   | some t =>
     simp only []
     have hp := tClose_pres c t
@@ -665,68 +844,77 @@ theorem close_inv {c : Conn} (hi : Inv c) : Inv c.close.1 := by
     | ok =>
       have e : c.tClose t = ((c.tClose t).1, .ok) := by rw [← hr]
       rw [e, andThen_ok]
-      refine release_inv _ (hp.inv hi) ?_
+      refine releaseOrInterrupt_inv _ (hp.inv hi) ?_
       intro hact hd
-      have hroot := hi.1 t ht
+      have hroot := hi.1.1 t ht
       have e2 : c.tClose t = c.rootCloseImpl t false := by simp [Conn.tClose, hroot]
       rw [e2] at hr hd ⊢
       exact rootClose_heldClean c t false hact hr hd
     | _ =>
-      have : (andThen (c.tClose t) fun c1 => (c1.release (c.act t), Res.ok)) = c.tClose t := by
-        cases h' : c.tClose t with
-        | mk c1 r =>
-          rw [h'] at hr
-          simp only at hr
-          subst hr
-          rfl
-      rw [this]
+      rw [andThen_not_ok (by rw [hr]; simp)]
       exact hp.inv hi
 
 theorem gc_inv {c : Conn} (hi : Inv c) : Inv c.gc := by
-  obtain ⟨_, h2, h3⟩ := hi
+  obtain ⟨_, h2, h3, h4⟩ := hi
   unfold Conn.gc
-  refine ⟨fun t ht => (by cases ht), ?_⟩
-  cases hh : c.hasDbapi with
-  | false => simp only [Bool.false_eq_true, if_false]; exact ⟨h2, h3⟩
-  | true =>
-    simp only [if_true]
-    obtain ⟨k1, k2⟩ := checkin_clean_reset c.db false h3 (fun e => by cases e) h2
-    exact ⟨k1, by rw [k2]; exact h3⟩
+  refine ⟨wfc_empty rfl rfl rfl, ?_⟩
+  cases hz : c.zombie with
+  | true => simp only [if_true]; exact ⟨h2, h3, h4⟩
+  | false =>
+    simp only [Bool.false_eq_true, if_false]
+    cases hh : c.hasDbapi with
+    | false => simp only [Bool.false_eq_true, if_false]; exact ⟨h2, h3, h4⟩
+    | true =>
+      simp only [if_true]
+      obtain ⟨k1, k2, k3⟩ := checkin_clean_reset c.db false h3 (fun e => by cases e) h2 h4
+      exact ⟨k1, by rw [k2]; exact h3, k3⟩
 
-theorem connect_inv {db : DB} (h2 : PoolClean db) (h3 : db.reset ≠ .none) : Inv (Conn.connect db) :=
-  ⟨fun t ht => (by cases ht), (checkout_shrinks db).clean h2, (by
-    show db.checkout.reset ≠ .none
-    rw [(checkout_shrinks db).reset]; exact h3)⟩
+theorem connect_inv {db : DB} (h2 : PoolClean db) (h3 : db.reset ≠ .none) (h4 : HeldIso db) :
+    Inv (Conn.connect db) :=
+  ⟨wfc_empty rfl rfl rfl, (connectRaw_shrinks db).clean h2, (by
+    show db.connectRaw.reset ≠ .none
+    rw [(connectRaw_shrinks db).reset]; exact h3), (connectRaw_shrinks db).held h2 h4⟩
 
 theorem warmTake_clean : ∀ (n : Nat) (db : DB) (acc : List Raw), PoolClean db → db.reset ≠ .none →
-    PoolClean (DB.warmTake n db acc).1 ∧ (DB.warmTake n db acc).1.reset ≠ .none := by
+    HeldIso db → (∀ r ∈ acc, IsoOk r) →
+    PoolClean (DB.warmTake n db acc).1 ∧ (DB.warmTake n db acc).1.reset ≠ .none ∧
+    (∀ r ∈ (DB.warmTake n db acc).2, IsoOk r) := by
   intro n
   induction n with
-  | zero => intro db acc h2 h3; exact ⟨h2, h3⟩
+  | zero => intro db acc h2 h3 _ h5; exact ⟨h2, h3, h5⟩
   | succ n ih =>
-    intro db acc h2 h3
+    intro db acc h2 h3 h4 h5
     simp only [DB.warmTake]
-    exact ih _ _ ((checkout_shrinks db).clean h2) (by rw [(checkout_shrinks db).reset]; exact h3)
+    have hs := connectRaw_shrinks db
+    refine ih _ _ (hs.clean h2) (by rw [hs.reset]; exact h3) (hs.held h2 h4) ?_
+    intro r hr
+    rcases List.mem_append.1 hr with hr | hr
+    · exact h5 r hr
+    · simp only [List.mem_singleton] at hr
+      subst hr
+      exact hs.held h2 h4
 
 theorem warmReturn_clean : ∀ (l : List Raw) (db : DB), PoolClean db → db.reset ≠ .none →
+    (∀ r ∈ l, IsoOk r) →
     PoolClean (DB.warmReturn l db) ∧ (DB.warmReturn l db).reset ≠ .none := by
   intro l
   induction l with
-  | nil => intro db h2 h3; exact ⟨h2, h3⟩
+  | nil => intro db h2 h3 _; exact ⟨h2, h3⟩
   | cons r rs ih =>
-    intro db h2 h3
+    intro db h2 h3 h5
     simp only [DB.warmReturn]
     have hc : PoolClean ({ db with raw := r } : DB) := h2
-    obtain ⟨k1, k2⟩ := checkin_clean_reset ({ db with raw := r } : DB) false h3 (fun e => by cases e) hc
-    exact ih _ k1 (by rw [k2]; exact h3)
+    obtain ⟨k1, k2, _⟩ := checkin_clean_reset ({ db with raw := r } : DB) false h3 (fun e => by cases e) hc
+      (h5 r List.mem_cons_self)
+    exact ih _ k1 (by rw [k2]; exact h3) (fun x hx => h5 x (List.mem_cons_of_mem _ hx))
 
-theorem warm_clean (n : Nat) (db : DB) (h2 : PoolClean db) (h3 : db.reset ≠ .none) :
-    PoolClean (DB.warm n db) ∧ (DB.warm n db).reset ≠ .none := by
+theorem warm_clean (n : Nat) (db : DB) (h2 : PoolClean db) (h3 : db.reset ≠ .none) (h4 : HeldIso db) :
+    PoolClean (DB.warm n db) ∧ (DB.warm n db).reset ≠ .none ∧ HeldIso (DB.warm n db) := by
   unfold DB.warm
   simp only []
-  obtain ⟨a1, a2⟩ := warmTake_clean n db [] h2 h3
-  obtain ⟨b1, b2⟩ := warmReturn_clean (DB.warmTake n db []).2 (DB.warmTake n db []).1 a1 a2
-  exact ⟨b1, b2⟩
+  obtain ⟨a1, a2, a3⟩ := warmTake_clean n db [] h2 h3 h4 (fun _ h => by cases h)
+  obtain ⟨b1, b2⟩ := warmReturn_clean (DB.warmTake n db []).2 (DB.warmTake n db []).1 a1 a2 a3
+  exact ⟨b1, b2, h4⟩
 
 theorem step_inv {c : Conn} (hi : Inv c) (op : Op) : Inv (c.step op).1 := by
   cases op with
@@ -744,17 +932,82 @@ theorem step_inv {c : Conn} (hi : Inv c) (op : Op) : Inv (c.step op).1 := by
   | exitExc h => exact (exit_pres c h true).inv hi
   | invalidate => exact (invalidate_pres c).inv hi
   | arm p k =>
-    exact ⟨hi.1, hi.2.1, hi.2.2⟩
+    exact ⟨wfc_congr (by rfl) (by rfl) (by rfl) hi.1, hi.2.1, hi.2.2.1, hi.2.2.2⟩
   | disarm =>
-    exact ⟨hi.1, hi.2.1, hi.2.2⟩
+    exact ⟨wfc_congr (by rfl) (by rfl) (by rfl) hi.1, hi.2.1, hi.2.2.1, hi.2.2.2⟩
   | warm n =>
-    obtain ⟨a, b⟩ := warm_clean n c.db hi.2.1 hi.2.2
-    exact ⟨hi.1, a, b⟩
+    obtain ⟨a, b, d⟩ := warm_clean n c.db hi.2.1 hi.2.2.1 hi.2.2.2
+    exact ⟨wfc_congr (by rfl) (by rfl) (by rfl) hi.1, a, b, d⟩
   | connect =>
     have := gc_inv hi
-    exact connect_inv this.2.1 this.2.2
+    exact connect_inv this.2.1 this.2.2.1 this.2.2.2
   | gc => exact gc_inv hi
   | autocommit => exact (setAutocommit_pres c).inv hi
+  | readUnc => exact (setReadUnc_pres c).inv hi
+  | logToken => exact (setLogToken_pres c).inv hi
+  | otherOpt => exact hi
+  | tokenAuto => exact (setAutocommit_pres c).inv hi
+
+theorem release_wfc {c : Conn} (b : Bool) (hw : WFc c) : WFc (c.release b) := by
+  unfold Conn.release
+  split
+  · exact wfc_congr (by rfl) (by rfl) (by rfl) hw
+  · exact wfc_congr (by rfl) (by rfl) (by rfl) hw
+
+theorem releaseOrInterrupt_wfc {c : Conn} (b : Bool) (hw : WFc c) : WFc (c.releaseOrInterrupt b).1 := by
+  unfold Conn.releaseOrInterrupt
+  split
+  · exact wfc_congr (by rfl) (by rfl) (by rfl) hw
+  · exact release_wfc b hw
+
+theorem close_wfc {c : Conn} (hw : WFc c) : WFc c.close.1 := by
+  unfold Conn.close
+  cases ht : c.transaction with
+  | none => exact releaseOrInterrupt_wfc false hw
+  | some t =>
+    simp only []
+    have hp := (tClose_pres c t).root hw
+    cases hr : (c.tClose t).2 with
+    | ok =>
+      have e : c.tClose t = ((c.tClose t).1, .ok) := by rw [← hr]
+      rw [e, andThen_ok]
+      exact releaseOrInterrupt_wfc _ hp
+    | _ =>
+      rw [andThen_not_ok (by rw [hr]; simp)]
+      exact hp
+
+/-- structural well-formedness of the handle table is preserved by EVERY operation -/
+theorem step_wfc {c : Conn} (hw : WFc c) (op : Op) : WFc (c.step op).1 := by
+  cases op with
+  | begin => exact (begin_pres c).root hw
+  | beginNested => exact (beginNested_pres c).root hw
+  | exec s => exact (execute_pres c _).root hw
+  | commit => exact (commit_pres c).root hw
+  | rollback => exact (rollback_pres c).root hw
+  | close => exact close_wfc hw
+  | tCommit h => exact (tCommit_pres c h).root hw
+  | tRollback h => exact (tRollback_pres c h).root hw
+  | tClose h => exact (tClose_pres c h).root hw
+  | enter h => exact (enter_pres c h).root hw
+  | exitOk h => exact (exit_pres c h false).root hw
+  | exitExc h => exact (exit_pres c h true).root hw
+  | invalidate => exact (invalidate_pres c).root hw
+  | arm p k => exact wfc_congr (by rfl) (by rfl) (by rfl) hw
+  | disarm => exact wfc_congr (by rfl) (by rfl) (by rfl) hw
+  | warm n => exact wfc_congr (by rfl) (by rfl) (by rfl) hw
+  | connect => exact wfc_empty rfl rfl rfl
+  | gc => exact wfc_empty rfl rfl rfl
+  | autocommit => exact (setAutocommit_pres c).root hw
+  | readUnc => exact (setReadUnc_pres c).root hw
+  | logToken => exact (setLogToken_pres c).root hw
+  | otherOpt => exact hw
+  | tokenAuto => exact (setAutocommit_pres c).root hw
+
+theorem run_wfc : ∀ (ops : List Op) (c : Conn), WFc c → WFc (c.run ops) := by
+  intro ops
+  induction ops with
+  | nil => intro c h; exact h
+  | cons op ops ih => intro c h; exact ih _ (step_wfc h op)
 
 theorem run_inv : ∀ (ops : List Op) (c : Conn), Inv c → Inv (c.run ops) := by
   intro ops
